@@ -10,16 +10,36 @@ def tags_of(s):
     return [(t, 0) if isinstance(t, str) else (t["name"], t.get("priority", 0)) for t in s.get("tags", [])]
 
 
+def resolve_import(imp, cfg):
+    """the package an import reference denotes, as documented: surrounding quotes dropped, "." = the current
+    package (""), an alias of meta.imports replaced when it is the whole first path segment"""
+    imp = imp.strip('"')
+    if imp == ".":
+        return ""
+    tbl = cfg.get("meta", {}).get("imports", {})
+    seg = imp.split("/")[0]
+    if seg in tbl:
+        return tbl[seg] + imp[len(seg):]
+    return imp
+
+
 def pkg_of(ref, cfg):
-    """import path a symbol reference denotes: alias.Sym / "path".Sym"""
-    m = re.match(r'^&?(?:"([^"]+)"|([^."]+))\.(.*)$', ref)
+    """(import path, symbol) of a symbol reference: alias.Sym[.Field] / alias/sub.Sym / "path".Sym[.Field] / ".".Sym"""
+    r = ref[1:] if ref.startswith("&") else ref
+    m = re.match(r'^("[^"]*")\.(.*)$', r)
+    if m:
+        return resolve_import(m.group(1), cfg), m.group(2)
+    if "/" in r:
+        k = r.index(".", r.rindex("/"))
+        return resolve_import(r[:k], cfg), r[k + 1:]
+    m = re.match(r'^([^."]+)\.(.*)$', r)
     if not m:
         return None, ref
-    path = m.group(1)
-    if path is None:
-        al = m.group(2)
-        path = cfg.get("meta", {}).get("imports", {}).get(al, al)
-    return path, m.group(3)
+    return resolve_import(m.group(1), cfg), m.group(2)
+
+
+def lab(pth, sym):
+    return sym if pth == "" else pth + "." + sym
 
 
 def eval_pattern(cfg, s, depth=0):
@@ -80,8 +100,10 @@ def eval_pattern(cfg, s, depth=0):
                 return ("err",)
         elif fn == "todo":
             return ("err", argv[0] if argv else "parameter todo")
-        elif fn == "myfn":
+        elif cfg.get("meta", {}).get("functions", {}).get(fn, "").endswith(".Fn1") or fn == "myfn":
             vals.append("fn1/%d" % len(argv))
+        elif cfg.get("meta", {}).get("functions", {}).get(fn, "").endswith(".FnInt"):
+            vals.append(41 + len(argv))
         else:
             return ("err",)
     if len(vals) == 1:
@@ -157,11 +179,11 @@ def expect_arg(cfg, a, d, getdesc, path):
         if sym == "ID":
             ok = d.get("k") == "string" and d.get("v") == pth
         elif sym == "Global.Ctor":
-            ok = d.get("k") == "string" and d.get("v") == pth + ".Global"
+            ok = d.get("k") == "string" and d.get("v") == lab(pth, "Global")
         elif sym == "Global":
-            ok = d.get("k") == "obj" and d.get("ctor") == pth + ".Global" and d.get("ptr") is True
+            ok = d.get("k") == "obj" and d.get("ctor") == lab(pth, "Global") and d.get("ptr") is True
         elif sym == "GlobalVal":
-            ok = d.get("k") == "obj" and d.get("ctor") == pth + ".GlobalVal" and d.get("ptr") == ref.startswith("&")
+            ok = d.get("k") == "obj" and d.get("ctor") == lab(pth, "GlobalVal") and d.get("ptr") == ref.startswith("&")
         elif sym == "Obj{}":
             ok = d.get("k") == "obj" and d.get("ctor") == "" and d.get("ptr") == ref.startswith("&")
         else:
@@ -187,7 +209,7 @@ def check_service(cfg, name, d, deferred):
     cur = d
     for dc in reversed(decs):
         pth, sym = pkg_of(dc["decorator"], cfg)
-        if cur.get("k") != "obj" or cur.get("ctor") != pth + "." + sym:
+        if cur.get("k") != "obj" or cur.get("ctor") != lab(pth, sym):
             raise Mismatch("service %r: expected result of decorator %s, got %r" % (name, dc["decorator"], {k: cur.get(k) for k in ("k", "ctor")}))
         args = cur["args"]["v"]
         if len(args) != 2 + len(dc.get("arguments", [])) or args[0].get("v") != dc["tag"] or args[1].get("v") != name:
@@ -231,7 +253,7 @@ def check_service(cfg, name, d, deferred):
     # base object
     if "constructor" in s:
         pth, sym = pkg_of(s["constructor"], cfg)
-        if cur.get("k") != "obj" or cur.get("ctor") != pth + "." + sym:
+        if cur.get("k") != "obj" or cur.get("ctor") != lab(pth, sym):
             raise Mismatch("service %r: declared constructor %s, built by %r" % (name, s["constructor"], cur.get("ctor")))
         got = cur["args"]["v"]
         decl = s.get("arguments", [])
